@@ -6,6 +6,11 @@ use vstd::prelude::*;
 use std::cmp::Ordering;
 use std::fmt::{Debug, Display};
 
+// trait impls SimpleNumber needs to instantiate Extents<T> (bounds only; never called by the extracted code)
+impl PartialEq for SimpleNumber { fn eq(&self, _o: &Self) -> bool { unimplemented!() } }
+impl PartialOrd for SimpleNumber { fn partial_cmp(&self, _o: &Self) -> Option<Ordering> { unimplemented!() } }
+impl Debug for SimpleNumber { fn fmt(&self, _f: &mut std::fmt::Formatter<'_>) -> std::fmt::Result { unimplemented!() } }
+
 verus! {
 
 //@@EXTRACT enum traits/src/data.rs GarnishDataType
@@ -31,6 +36,17 @@ pub uninterp spec fn number_to_usize(n: SimpleNumber) -> usize;
 pub fn number_into_usize(n: SimpleNumber) -> (r: usize)
     ensures r == number_to_usize(n)
 { unimplemented!() }
+
+/// `impl From<&SimpleNumber> for usize` (number.rs), same conversion through a reference
+#[verifier::external_body]
+pub fn number_ref_into_usize(n: &SimpleNumber) -> (r: usize)
+    ensures r == number_to_usize(*n)
+{ unimplemented!() }
+
+//@@EXTRACT struct traits/src/data.rs Extents pubfields=1
+//@@EXTRACT struct data/src/data/iterators.rs DataIndexIterator pubfields=1
+//@@EXTRACT struct data/src/data/iterators.rs CharListIterator pubfields=1
+//@@EXTRACT struct data/src/data/iterators.rs ByteListIterator pubfields=1
 
 // DataError (data/src/error.rs): external type, constructors assumed (message text and backtrace dropped)
 #[verifier::external_body]
@@ -443,6 +459,30 @@ pub open spec fn next_size_spec(b: StorageBlock) -> int {
     match b.settings.reallocation_strategy {
         ReallocationStrategy::FixedSize(s) => b.size + s,
         ReallocationStrategy::Multiplicative(m) => b.size * m,
+    }
+}
+
+/// the address a list-item cell holds
+pub open spec fn item_addr<T: BasicDataCustom>(d: BasicData<T>) -> usize { match d { BasicData::ListItem(i) => i, _ => 0 } }
+
+/// Stand for `<slice>.iter().map(|c| c.as_char().unwrap()).collect()` / `.as_byte()` in get_char_list_iter / get_byte_list_iter
+/// (iterator adapters, rule R8-cut; the slicing expression itself stays in the verified text). Assumed: one element per cell of
+/// the window; a cell that is not a Char / Byte would make the real `unwrap()` panic - the window is required to hold only such cells.
+#[verifier::external_body]
+pub fn verif_chars_of<T: BasicDataCustom>(window: &[BasicData<T>]) -> (r: Vec<char>)
+    requires forall|k: int| 0 <= k < window@.len() ==> (#[trigger] window@[k]) is Char
+    ensures r@.len() == window@.len(), forall|k: int| 0 <= k < window@.len() ==> window@[k] == BasicData::<T>::Char(#[trigger] r@[k])
+{ unimplemented!() }
+#[verifier::external_body]
+pub fn verif_bytes_of<T: BasicDataCustom>(window: &[BasicData<T>]) -> (r: Vec<u8>)
+    requires forall|k: int| 0 <= k < window@.len() ==> (#[trigger] window@[k]) is Byte
+    ensures r@.len() == window@.len(), forall|k: int| 0 <= k < window@.len() ==> window@[k] == BasicData::<T>::Byte(#[trigger] r@[k])
+{ unimplemented!() }
+
+impl DataIndexIterator {
+    /// the items the iterator has still to yield, in order
+    pub open spec fn rem(&self) -> Seq<usize> {
+        if self.current <= self.items@.len() { self.items@.skip(self.current as int) } else { Seq::empty() }
     }
 }
 
